@@ -36,7 +36,9 @@ type MessageFuture struct {
 func NewMessageFuture(message RpcMessage) *MessageFuture {
 	return &MessageFuture{
 		ID:   message.ID,
-		Done: make(chan struct{}),
+		// buffered: the response is delivered even if the waiter has already given up,
+		// so a late reply never blocks the goroutine that processes incoming messages
+		Done: make(chan struct{}, 1),
 	}
 }
 
